@@ -63,14 +63,20 @@ CHECKS = {
    technique="differential property testing of migrate() against an independent newest-wins decode of generated legacy sources (real v1/v2 workload files incl. crashed ones + codec-synthesised images)",
    text="Generated legacy sources are migrated with/without the ambiguity opt-in and with absent/pre-existing destinations; the destination must decode (independent codec) to exactly the source's newest generations, the source bytes must be unchanged, failures must leave nothing behind.",
    note="Trusted: layout codec (decoder and legacy encoder); expected contents skip extents named by an active journal, as recovery does."),
+ "C09": dict(engine="fault", cat="fault_enumeration", ref="§5 C09",
+   technique="fault-plan enumeration: generated workloads re-executed under generated per-I/O-call fault plans (k-th write/fsync fails before/after, repeated, forever, pairs) with model, recovered-image and heal oracles",
+   text="Every (workload, plan) execution checks that reads keep matching the model, that after every flush - failed or not - the device as it stands (durable-only and as-written images) recovers to states no older than the acknowledged ones, that flush Ok implies durability, and that a healed or reopened device flushes again.",
+   note="Trusted: I/O hook fault decisions are honoured at every pwrite/fsync (plain path) and per submission on io_uring; failed fsync = no guarantee but no destruction; reopen-after-indeterminate on a file copy."),
+ "C19": dict(engine="crash", cat="exploration", ref="§5 C19",
+   technique="property testing of live write-behind: generated bursts on stores with 1..8 workers, polling through the snapshot hook, durable image rebuilt from the I/O trace and decoded by the independent codec",
+   text="Without explicit flush every accepted write/delete (and the retirement of superseded, deleted and swept generations) must reach the device within a generous bound for every shard/worker count, with idle and busy neighbours and buffer-filling bursts; the fsync-covered image must hold the final values.",
+   note="Timing property: the verdict bound is 15 s + measured stalls and must reproduce twice; the nominal 2 s bound is reported as a statistic only. Liveness beyond the explored schedules is not established."),
 }
 
 NOT_YET = {
  "C07": "concurrency engine not registered yet (in construction)",
  "C08": "concurrency engine not registered yet (in construction)",
- "C09": "fault engine not registered yet (in construction)",
  "C18": "termination checks not registered yet (in construction)",
- "C19": "write-behind check not registered yet (in construction)",
  "C20": "sanitizer runs not registered yet (in construction)",
 }
 
